@@ -76,6 +76,16 @@ def hetero_programs(r):
             P("module-result-by-param", "let m = module {c = true} => (r) {let r = select (mod.c, %s) => {true = %s};}; let v = %s; let w = %s;" % (b, a, ua % "m{}", ub % "m{c = false}"))
             # in / is guards
             P("is-guard", "let x = %s; let v = select (x is \"%s\", %s) => {true = %s};" % (a, A, a, ua % "x"))
+            # further shapes (reported by a sub-agent on the unmodified tree)
+            P("select-arm-nested-select-then-call-result", "let f = func (x) => x; let s = select (\"b\") => {a = select (\"a\") => {a = %s}, b = f(%s)}; let v = %s;" % (b, a, ua % "s"))
+            P("select-arm-call-result-then-nested-select", "let f = func (x) => x; let s = select (\"b\") => {b = f(%s), a = select (\"a\") => {a = %s}}; let v = %s;" % (a, b, ua % "s"))
+            P("reduce-acc-copy-adds-field", "let r = reduce(func (acc, x) => acc{a = x}, {}, [%s, %s]); let v = %s;" % (a, a, ua % "r.a"))
+            P("reduce-acc-copy-adds-field-to-typed-init", "let r = reduce(func (acc, x) => acc{a = x}, {z = %s}, [%s]); let v = %s; let w = %s;" % (b, a, ua % "r.a", ub % "r.z"))
+            P("reduce-acc-list-grows-other-type", "let r = reduce(func (acc, x) => acc + [x], [%s], [%s]); let v = %s;" % (b, a, ua % "r.1"))
+            P("module-returns-param-override-wider", "let m = module {x = {a = %s}} => (r) {let r = mod.x;}; let v = %s;" % (b, ua % ("m{x = {a = %s, b = %s}}.b" % (b, a))))
+            P("module-returns-param-field-override-other-type", "let m = module {x = NULL, y = %s} => (r) {let r = {p = mod.x, q = mod.y};}; let o = m{x = %s}; let v = %s; let w = %s;" % (b, a, ua % "o.p", ub % "o.q"))
+            P("is-guarded-function", "let f = func (x) => select (x is \"%s\") => {true = %s, false = 0}; let r = f(%s); let w = f(%s);" % (A, ua % "x", b, a))
+            P("is-guarded-function-default", "let f = func (x) => select (x is \"%s\", 0) => {true = %s}; let r = f(%s); let w = f(%s);" % (A, ua % "x", b, a))
     return out
 
 
